@@ -10,8 +10,11 @@ mod backend_replay;
 mod bits_replay;
 mod symbol_replay;
 mod chain;
+mod drive;
 mod ans_bounded;
 mod chain_replay;
+
+fn optc<T: std::str::FromStr>(args: &[String], name: &str) -> Option<T> { args.iter().position(|a| a == name).and_then(|i| args.get(i + 1)).and_then(|s| s.parse().ok()) }
 
 fn main() {
     common::install_panic_hook();
@@ -23,10 +26,16 @@ fn main() {
     let seed: u64 = opt("--seed").and_then(|s| s.parse().ok()).unwrap_or(0);
     let n: u64 = opt("--n").and_then(|s| s.parse().ok()).unwrap_or(100);
     let cmd = args[1].clone();
+    let argv = args.clone();
     *common::ABORT_FILE.lock().unwrap() = format!("{}.abort", out);
     let skip: std::collections::HashSet<usize> = opt("--skip").map(|s| s.split(',').filter_map(|x| x.parse().ok()).collect()).unwrap_or_default();
     let mode = opt("--mode").unwrap_or_default();
     common::run_with_watchdog(&out, 30, move || match cmd.as_str() {
+        "drive_ans" => {
+            let w: u32 = optc(&argv, "--w").unwrap(); let s: u32 = optc(&argv, "--s").unwrap();
+            let precs: Vec<usize> = optc::<String>(&argv, "--precs").unwrap().split(',').map(|x| x.parse().unwrap()).collect();
+            drive::drive_ans(w, s, &precs, seed, n as usize, &optc::<String>(&argv, "--trace").unwrap())
+        }
         "replay" => ans_replay::replay_file(&input.expect("--in"), &mode, &skip),
         _ => { eprintln!("unknown command {} (seed {}, n {})", cmd, seed, n); std::process::exit(2) }
     });
